@@ -56,7 +56,15 @@ def uiOp (j : Json) : Except String Res := do
   let keys ← strList j "keys_sub"
   let height ← nat j "height"
   let impl := (j.getObjVal? "impl").toOption.getD Json.null
-  match Ui.start w context start with
+  let feeds : List (Str × List Str) := match j.getObjVal? "feeds_sub" with
+    | .ok (Json.arr a) => a.toList.filterMap fun p => match p with
+      | Json.arr q => match q[0]?, q[1]? with
+        | some (Json.str n), some (Json.arr us) =>
+          some (n.toList, us.toList.filterMap fun u => match u with | Json.str x => some x.toList | _ => none)
+        | _, _ => none
+      | _ => none
+    | _ => []
+  match Ui.start w context start feeds with
   | .error _ => pure { model := panicJson }
   | .ok s0 =>
     let mut s := s0
